@@ -462,6 +462,11 @@ impl StaticTable {
     }
 }
 
+/// Verification harnesses with access to this module's private items (only under `cargo kani`).
+#[cfg(kani)]
+#[path = "/verif/kani/proto/in_qpack.rs"]
+pub(crate) mod verif_kani;
+
 #[cfg(test)]
 mod tests {
     use super::*;
